@@ -137,6 +137,33 @@ bool property_enumerate(const vf::EmitFn& emit) {
       {"http://1.2.3", ".4/"}, {"http://[::1", "]/"}, {"http://0x", "7f.1/"}, {"mailto:a", "@b"}, {"blob:https://a", "/x"},
       {"http://host/%2", "e/x"}, {"http://host/.", "./x"}, {"http://xn--", "nxasmq6b/"}};
   static const char* bases[] = {nullptr, "http://base.example/d/e?bq#bf", "file:///C:/dir/f", "foo://bh/x/y", "foo:opaque"};
+  // dot-segment structure: every path of 1..4 segments over {"", ".", "..", "a", "%2e", ".%2E"},
+  // behind fast-path shaped, non-special, file and relative prefixes, with three endings
+  {
+    static const char* segs[] = {"", ".", "..", "a", "%2e", ".%2E"};
+    static const char* prefixes[] = {"http://host", "https://example.com", "https://example.com/a", "foo://h", "foo:", "file://", "", "x", "http://h:8080", "ws://u@h"};
+    static const char* endings[] = {"", "/", "?q#f"};
+    for (auto pre : prefixes)
+      for (unsigned n = 1; n <= 4; n++) {
+        unsigned total = 1;
+        for (unsigned i = 0; i < n; i++) total *= 6;
+        for (unsigned code = 0; code < total; code++) {
+          std::string path;
+          unsigned cde = code;
+          for (unsigned i = 0; i < n; i++) { path += "/"; path += segs[cde % 6]; cde /= 6; }
+          for (auto end : endings) {
+            std::string in = std::string(pre) + path + end;
+            for (auto b : {(const char*)nullptr, "http://base.example/d/e?bq#bf"}) {
+              if (b && pre[0] != 0 && strstr(pre, ":")) continue;  // absolute inputs ignore the base
+              std::string bstr = b ? b : "";
+              auto v = vf::encode_raw_case(in, b ? &bstr : nullptr, {});
+              v.push_back(0); v.push_back(0); v.push_back(0);
+              emit(v);
+            }
+          }
+        }
+      }
+  }
   for (auto& sk : sks)
     for (auto b : bases)
       for (uint32_t cp : cps) {
